@@ -6,7 +6,7 @@ git diff --quiet || { echo "/repo is dirty"; exit 2; }
 git apply "/verif/seeded/$sid/patch.diff" || exit 2
 cd /verif
 ./check "$prop" --tier "$tier" > /tmp/try_seed_out.txt 2>&1
-cd /repo && git checkout -- . 
+cd /repo && git checkout -- . && git clean -fdq src tests
 echo "== $sid vs $prop: $(grep -E 'VIOLATION|ok:' /tmp/try_seed_out.txt | head -2)"
 python3 - "$prop" "$tier" <<'PY'
 import json,sys
